@@ -273,6 +273,97 @@ func (e *c01env) checkKnown(r *vh.RNG, mi *msgInfo) {
 	})
 }
 
+// checkRawKnownID writes a raw frame whose id is in the writer's dialect and whose checksum is whatever the frame says.
+func (e *c01env) checkRawKnownID(r *vh.RNG, mi *msgInfo, k int) {
+	s := c01random(r, e.cfg)
+	s.MsgID = mi.Msg.GetID()
+	if e.cfg.version == 1 && s.MsgID > 255 {
+		return
+	}
+	if k%2 == 0 {
+		// a payload of the message's own shape, checksum of another revision (wrong CRC_EXTRA)
+		val := reflect.New(mi.Type)
+		vh.FillMessage(r, mi.Layout, val, vh.ModeMixed)
+		s.Payload = mi.Layout.Encode(val, e.cfg.version == 2)
+		s.Checksum = ref.ChecksumOfWire(ref.Serialize(s), mi.Layout.CRCExtra+1+byte(k))
+	}
+	want := ref.Serialize(s)
+	e.rep.Eval(1)
+	e.rep.Distinct(want)
+	e.rep.Count("raw_frames_with_dialect_id", 1)
+	wit := func() interface{} {
+		return map[string]interface{}{"cfg": e.cfg.String(), "msg": mi.Name, "frame": specJSON(s)}
+	}
+	guard(e.rep, c01key(e.cfg, "rawknown", "panic"), wit, func() {
+		e.w.reset()
+		tf := toFrame(s)
+		if err := e.fw.Write(tf); err != nil {
+			e.rep.Violation(c01key(e.cfg, "rawknown", "bytes"), "writer refused an already encoded frame: "+err.Error(), wit())
+			return
+		}
+		if got := e.w.all(); !bytes.Equal(got, want) {
+			e.rep.Violation(c01key(e.cfg, "rawknown", "bytes"), "an already encoded frame whose id is in the writer's dialect was not emitted as given",
+				map[string]interface{}{"case": wit(), "want": vh.Hex(want), "got": vh.Hex(got)})
+			return
+		}
+		if ok, diff := specEqual(s, fromFrame(tf)); !ok {
+			e.rep.Violation(c01key(e.cfg, diff, "rawknown"), "the caller's frame object was modified by Write in "+diff, wit())
+		}
+	})
+}
+
+// checkUntruncatedSigned: a signed v2 frame of a dialect message sent without trailing-zero truncation (the spec allows
+// it), read by a reader that has the key and the dialect: link id, timestamp and signature of the returned frame are the
+// ones in the bytes.
+func (e *c01env) checkUntruncatedSigned(r *vh.RNG, mi *msgInfo) {
+	val := reflect.New(mi.Type)
+	vh.FillMessage(r, mi.Layout, val, vh.ModeMixed)
+	full := mi.Layout.EncodeFull(val, true)
+	if len(full) < 2 {
+		return
+	}
+	full[len(full)-1] = 0
+	if r.Chance(1, 2) && len(full) > 3 {
+		full[len(full)-2], full[len(full)-3] = 0, 0
+	}
+	s := c01random(r, e.cfg)
+	s.MsgID = mi.Msg.GetID()
+	s.Payload = full
+	keyRaw := r.Bytes(32)
+	ref.Seal(s, mi.Layout.CRCExtra, keyRaw)
+	wire := ref.Serialize(s)
+	e.rep.Eval(1)
+	e.rep.Distinct(wire)
+	e.rep.Count("untruncated_signed_frames_read_with_key", 1)
+	wit := func() interface{} {
+		return map[string]interface{}{"msg": mi.Name, "frame": specJSON(s), "wire": vh.Hex(wire), "key": vh.Hex(keyRaw)}
+	}
+	guard(e.rep, c01key(e.cfg, "untruncated", "panic"), wit, func() {
+		rd, err := newFrameSource(bytes.NewReader(wire), e.drw, mkKey(keyRaw))
+		if err != nil {
+			e.rep.HarnessError("reader init: " + err.Error())
+			return
+		}
+		fr, err := rd.Read()
+		if err != nil {
+			e.rep.Violation(c01key(e.cfg, "untruncated", "roundtrip"), "a valid signed frame with an untruncated payload was rejected: "+err.Error(), wit())
+			return
+		}
+		back := fromFrame(fr)
+		switch {
+		case !back.Signed || back.LinkID != s.LinkID:
+			e.rep.Violation(c01key(e.cfg, "linkid", "roundtrip"), "frame read back differs in linkid", map[string]interface{}{"case": wit(), "back": specJSON(back)})
+		case back.Timestamp != s.Timestamp:
+			e.rep.Violation(c01key(e.cfg, "timestamp", "roundtrip"), "frame read back differs in timestamp", map[string]interface{}{"case": wit(), "back": specJSON(back)})
+		case back.Signature != s.Signature:
+			e.rep.Violation(c01key(e.cfg, "signature", "roundtrip"), "the signature of the frame read back is not the one in the bytes that were read",
+				map[string]interface{}{"case": wit(), "back": specJSON(back)})
+		case back.Seq != s.Seq || back.Sys != s.Sys || back.Comp != s.Comp || back.Compat != s.Compat || back.MsgID != s.MsgID:
+			e.rep.Violation(c01key(e.cfg, "header", "roundtrip"), "frame read back differs in a header field", map[string]interface{}{"case": wit(), "back": specJSON(back)})
+		}
+	})
+}
+
 // refuse checks that a v1 frame with an id above 255 is refused and nothing is written.
 func (e *c01env) refuse(s *ref.FrameSpec) {
 	e.rep.Eval(1)
@@ -409,6 +500,16 @@ func TestC01(t *testing.T) {
 					for _, mi := range known {
 						for k := 0; k < nKnown; k++ {
 							env.checkKnown(r, mi)
+						}
+						// already encoded frames whose id IS in the writer's dialect (forwarded from a peer with another revision of
+						// the definition, read without dialect, hand-built): emitted as given, checksum included
+						for k := 0; k < 6; k++ {
+							env.checkRawKnownID(r, mi, k)
+						}
+						if signed {
+							for k := 0; k < 4; k++ {
+								env.checkUntruncatedSigned(r, mi)
+							}
 						}
 					}
 					continue
